@@ -19,8 +19,10 @@ Monitors (DESIGN.md 4/C11):
                       read_matches_bytes / convert_voxels).
   read_results_independent  witness: two successive read() results of one file do not share memory (judged only when the
                       first result is writeable - a shared read-only array could not be edited).
+  rewrite_history     driver (history): write(A, p); edit the caller-owned A in place; write(A, p) again (same path, same size);
+                      read / convert after every step - each result must hold the values A had when it was written.
   overwrite_refusal   driver: with overwrite=False and an existing output the conversion raises and the file keeps its
-                      bytes.
+                      bytes - also after a second refused call.
 """
 import itertools
 import os
@@ -35,7 +37,9 @@ PROP = "C11"
 RULE = ("cases = generated 3-D arrays with independent axis sizes in 1..48 (stratified: generic non-cubic, degenerate axes, "
         "size-48 edges, two equal axes, float64 values that float32 cannot hold, NaN/inf/subnormals, integer extremes, "
         "memory layouts, transpose/data_type options, raw files from an independent writer, conversions with invert / "
-        "default and explicit names / overwrite refusal); each case is written to .mrc, .rec and .em; non-trivial = "
+        "default and explicit names / overwrite refusal; every spelling of the four data_type values x extension x transpose, "
+        "voxel counts 2**k-1, 2**k, 2**k+1 and the largest volumes, float32 representability boundaries, exact duplicate slabs, "
+        "names with extension-like tokens before the real extension, write-edit-rewrite histories); each case is written to .mrc, .rec and .em; non-trivial = "
         "at least 2 voxels, not constant, and not a cube (an axis permutation changes the shape or the values); "
         "distinct by digest of (shape, dtype, value class, layout, options, conversion scenario, first voxels)")
 ASSUMPTIONS = [
@@ -55,23 +59,29 @@ ASSUMPTIONS = [
 
 CLASSES = ["generic", "degenerate", "edge48", "two_equal_axes", "f64_narrow", "special_floats", "int_extremes", "layouts",
            "no_transpose", "data_type_opt", "raw_reader", "raw_reader_variants", "em2mrc", "mrc2em", "overwrite_refusal",
-           "int_min_invert", "read_edit_reread"]
+           "int_min_invert", "read_edit_reread", "data_type_grid", "block_boundaries", "repr_boundaries", "name_tokens",
+           "write_mutate_rewrite"]
 KEY_INTMIN = "int-min-negation-wraps"
 DTYPES = [np.float32, np.float64, np.int16, np.int8]
 STEMS = ["vol", "emd_1234", "membrane", "a.em", "mrc_avg", "x.mrc", "tomo.rec", "with space", "semrc.em.mrc", "stem"]
+TOKEN_STEMS = ["ts01.rec", "vol.em", "vol.mrc", "a.em.rec", "x.mrc.em", "tilt.st", "stack.ali", "map.rec.mrc", "b.em.em", "c.mrc.mrc",
+               "emrec.mrc.rec.em", "t.1", "run.em.2"]
+TOKEN_DIRS = ["session.mrc", "run.em", "data.rec", "x.em.mrc", "plain"]
+RT_STEMS = ["rt", "ts01.rec", "vol.em", "x.mrc", "tilt.st", "a.rec.mrc.em", "stack.ali", "b.em.rec"]
+READ_SPELLINGS = {"float64": orc.SPELLINGS["float64"], "float32": orc.SPELLINGS["float32"], "int16": orc.SPELLINGS["int16"]}
 
 
 def plan(tier):
     if tier == "quick":
         return dict(n_cases=50 * len(CLASSES), shards=4, classes=CLASSES, timeout_s=600,
-                    min_evals={"write_bytes": 3800, "read_matches_bytes": 5500, "roundtrip": 3000, "raw_read": 1600,
-                               "convert_voxels": 900, "overwrite_refusal": 120,
-                               "reread_after_edit": 1500, "read_results_independent": 500},
+                    min_evals={"write_bytes": 5500, "read_matches_bytes": 10000, "roundtrip": 4500, "raw_read": 2200,
+                               "convert_voxels": 1300, "overwrite_refusal": 400,
+                               "reread_after_edit": 2200, "read_results_independent": 1300, "rewrite_history": 1800},
                     min_anchor_calls={"cryomap.em2mrc": 300, "cryomap.mrc2em": 300}, min_known={"int-min-negation-wraps": 10})
     return dict(n_cases=2000 * len(CLASSES), shards=16, classes=CLASSES, timeout_s=3000,
                 min_evals={"write_bytes": 120000, "read_matches_bytes": 160000, "roundtrip": 90000, "raw_read": 36000,
                            "convert_voxels": 36000, "overwrite_refusal": 5500,
-                           "reread_after_edit": 60000, "read_results_independent": 20000},
+                           "reread_after_edit": 60000, "read_results_independent": 20000, "rewrite_history": 60000},
                 min_anchor_calls={"cryomap.em2mrc": 12000, "cryomap.mrc2em": 12000}, min_known={"int-min-negation-wraps": 200})
 
 
@@ -144,7 +154,7 @@ def setup(ctx):
     ctx.cmap = cryomap
     fw = monitors.wrap(ctx, cryomap, "write", "write_bytes", _w_post, _w_applicable, _w_snapshot)
     fr = monitors.wrap(ctx, cryomap, "read", "read_matches_bytes", _r_post, _r_applicable, _r_snapshot)
-    ctx.declare("roundtrip", "raw_read", "convert_voxels", "overwrite_refusal", "reread_after_edit", "read_results_independent")
+    ctx.declare("roundtrip", "raw_read", "convert_voxels", "overwrite_refusal", "reread_after_edit", "read_results_independent", "rewrite_history")
     monitors.trace(ctx, [
         ("cryomap.read", fr, {"mrc_or_rec": "mrcfile.open", "em": "emfile.read", "bad_extension": "is neither em or mrc",
                               "transpose": "data.transpose(2, 1, 0)", "ndarray_input": "np.array(input_map)",
@@ -179,6 +189,9 @@ def _shape(rng, cls):
         if rng.random() < 0.3:
             s[int(rng.integers(0, 3))] = 1
         return tuple(s)
+    if cls == "block_boundaries":
+        sh = orc.BLOCK_SHAPES[int(rng.integers(0, len(orc.BLOCK_SHAPES)))]
+        return tuple(int(v) for v in rng.permutation(sh))
     if cls == "two_equal_axes":
         a, b = (int(v) for v in rng.choice(np.arange(2, 31), 2, replace=False))
         return [(a, b, a), (a, a, b), (b, a, a)][int(rng.integers(0, 3))]
@@ -223,8 +236,49 @@ def gen(ctx, i, cls):
             w_pool = w_pool + [np.int16, np.int8, "int8", "i2"]
         wdt = w_pool[int(rng.integers(0, len(w_pool)))] if rng.random() < 0.8 else None
         rdt = [None, np.float64, float, "float64", np.float32][int(rng.integers(0, 5))]
-    if kind == "smallint_floats":
+    idx = i // len(CLASSES)
+    arr = None
+    if cls == "data_type_grid":
+        tname, wdt = orc.ALL_SPELLINGS[(idx * 7 + int(rng.integers(0, 3))) % len(orc.ALL_SPELLINGS)]
+        dtype = DTYPES[(idx + idx // 4) % 4]
+        if tname == "int8" and rng.random() < 0.5:
+            dtype = [np.int8, np.float32, np.float64, np.int16][idx % 4]
+        wT, rT = bool(idx % 2), bool(idx // 2 % 2)
+        arr = orc.values_for_cast(rng, shape, dtype, tname)
+        kind = "cast_exact->" + tname
+        stored = orc.narrowed(arr.astype(tname))
+        ok_read = [t for t in READ_SPELLINGS if orc.exact_cast(stored, t) is not None]
+        rt = ok_read[int(rng.integers(0, len(ok_read)))]
+        rdt = [None, READ_SPELLINGS[rt][int(rng.integers(0, len(READ_SPELLINGS[rt])))]][int(rng.random() < 0.7)]
+    elif cls == "repr_boundaries":
+        dtype = [np.float64, np.float32, np.float64, np.int16][idx % 4]
+        kind = "repr"
+        if np.dtype(dtype).kind == "f":
+            arr = orc.plant(rng, orc.make_values(rng, shape, dtype, "normal"), orc.REPR_F64 if dtype == np.float64 else orc.REPR_F32, frac=0.5)
+        else:
+            arr = orc.make_values(rng, shape, dtype, "int_ext")
+            if arr.size:
+                arr.flat[0] = np.iinfo(dtype).max
+        if idx % 3 == 0:
+            wdt = [float, "f8", "d", np.float64, np.dtype("float64"), "float64", np.float32, "f4"][idx // 3 % 8]
+        wT, rT = bool(idx % 5), bool(idx % 7)
+    elif cls == "block_boundaries":
+        kind = ["ramp", "normal", "dup_slabs"][idx % 3]
+        dtype = DTYPES[idx % 4]
+        arr = orc.make_values(rng, shape, dtype, "ramp" if kind == "ramp" else "normal")
+        if kind == "dup_slabs":
+            arr = orc.duplicate_slabs(rng, arr)
+        wT, rT = bool(idx % 4), bool(idx % 3)
+        if idx % 4 == 1:
+            wdt = [float, np.float32, "d", "float32"][idx // 4 % 4]
+    elif cls == "write_mutate_rewrite" and idx % 3 == 0:
+        kind = "dup_slabs"
+    if arr is not None:
+        pass
+    elif kind == "smallint_floats":
         arr = np.asarray(rng.integers(-120, 121, size=shape)).astype(dtype)
+    elif kind == "dup_slabs":
+        arr = orc.duplicate_slabs(rng, orc.make_values(rng, shape, dtype, "normal"))
     else:
         arr = orc.make_values(rng, shape, dtype, kind)
     if rdt is not None and np.dtype(rdt) == np.float32 and arr.dtype == np.float64 and wdt is None:
@@ -240,6 +294,15 @@ def gen(ctx, i, cls):
             "stem": STEMS[int(rng.integers(0, len(STEMS)))], "src_by": ["raw", "cryomap.write"][int(rng.random() < 0.35)],
             "overwrite": [None, True, False][int(rng.integers(0, 3))], "preexisting": bool(rng.random() < 0.4),
             "sentinel": ["junk", "valid"][int(rng.integers(0, 2))], "positional": bool(rng.random() < 0.15)}
+    conv["dir"] = "conv.dir"
+    rt_stem, rt_dir = "rt", None
+    if cls == "name_tokens" or rng.random() < 0.25:
+        conv["stem"] = TOKEN_STEMS[(idx + int(rng.integers(0, 2))) % len(TOKEN_STEMS)] if cls == "name_tokens" else TOKEN_STEMS[int(rng.integers(0, len(TOKEN_STEMS)))]
+        conv["dir"] = TOKEN_DIRS[(idx // 2) % len(TOKEN_DIRS)] if cls == "name_tokens" else TOKEN_DIRS[int(rng.integers(0, len(TOKEN_DIRS)))]
+        rt_stem = RT_STEMS[idx % len(RT_STEMS)] if cls == "name_tokens" else RT_STEMS[int(rng.integers(0, len(RT_STEMS)))]
+        rt_dir = [None, "session.mrc", "run.em", "data.rec"][(idx // 3) % 4] if cls == "name_tokens" else None
+        if cls == "name_tokens":
+            conv.update(explicit=bool(idx % 2), overwrite=[None, False, True, False][idx % 4], preexisting=bool(idx // 2 % 2))
     if cls == "overwrite_refusal":
         conv.update(overwrite=False, preexisting=True)
     raw = [{"ext": [".em", ".mrc", ".rec"][int(rng.integers(0, 3))], "ispg": None, "nsymbt": 0}]
@@ -253,10 +316,13 @@ def gen(ctx, i, cls):
     case = {"i": i, "cls": cls, "arr": arr, "layout": layout, "wT": wT, "rT": rT, "wdt": wdt, "rdt": rdt, "exts": exts,
             "conv": conv, "raw": raw, "kind": kind, "positional": bool(rng.random() < 0.15),
             "refusals": i % 8 == 3, "invert_contrast": i % 6 == 1,
-            "edit_reread": cls == "read_edit_reread" or i % 4 == 2}
+            "edit_reread": cls == "read_edit_reread" or i % 4 == 2, "rt_stem": rt_stem, "rt_dir": rt_dir,
+            "rewrite": cls == "write_mutate_rewrite" or i % 6 == 5}
     flat = arr.ravel()
     case["summary"] = {"shape_xyz": list(shape), "dtype": str(arr.dtype), "values": kind, "layout": layout,
-                       "write": {"transpose": wT, "data_type": str(wdt)}, "read": {"transpose": rT, "data_type": str(rdt)},
+                       "write": {"transpose": wT, "data_type": None if wdt is None else orc.spelling_repr(wdt)},
+                       "read": {"transpose": rT, "data_type": None if rdt is None else orc.spelling_repr(rdt)}, "rt_name": [rt_dir, rt_stem],
+                       "rewrite": case["rewrite"],
                        "convert": conv, "raw": raw, "edit_reread": case["edit_reread"], "first_voxels": [repr(v) for v in flat[:4].tolist()]}
     return case
 
@@ -285,8 +351,10 @@ def _roundtrips(ctx, case, d):
     disk = orc.expected_on_disk(arr, case["wT"], case["wdt"])
     if disk is None:
         raise RuntimeError("generator produced an out-of-quantifier write: %r" % (case["summary"],))
+    rd = d if not case.get("rt_dir") else os.path.join(d, case["rt_dir"])
+    os.makedirs(rd, exist_ok=True)
     for ext in case["exts"]:
-        path = os.path.join(d, "rt" + ext)
+        path = os.path.join(rd, case.get("rt_stem", "rt") + ext)
         if case["positional"]:
             ok, _ = ctx.call("write", cm.write, given, path, case["wT"], case["wdt"])
         else:
@@ -311,8 +379,11 @@ def _roundtrips(ctx, case, d):
             ctx.ood("roundtrip")
             continue
         good = isinstance(back, np.ndarray) and orc.values_equal(back, exp)
-        ctx.check("roundtrip", good, None if good else dict(orc.explain(np.asarray(back), exp), ext=ext,
-                                                           write_transpose=case["wT"], read_transpose=case["rT"]))
+        ctx.check("roundtrip", good, None if good else dict(orc.explain(np.asarray(back), exp), ext=ext, file=os.path.relpath(path, d),
+                                                           write_transpose=case["wT"], read_transpose=case["rT"],
+                                                           write_data_type=None if case["wdt"] is None else orc.spelling_repr(case["wdt"]),
+                                                           read_data_type=None if case["rdt"] is None else orc.spelling_repr(case["rdt"]),
+                                                           in_dtype=str(arr.dtype), layout=case["layout"]))
         if case["edit_reread"] and (case["cls"] == "read_edit_reread" or ext == case["exts"][case["i"] // 4 % 3]):
             _edit_reread(ctx, case, d, path, back, kw)
         if case["invert_contrast"] and ext == case["exts"][case["i"] % 3]:
@@ -373,7 +444,7 @@ def _convert(ctx, case, d):
     f = getattr(cm, c["direction"])
     src_ext, out_ext = (".em", ".mrc") if c["direction"] == "em2mrc" else (".mrc", ".em")
     X = orc.narrowed(case["arr"])
-    sub = os.path.join(d, "conv.dir")
+    sub = os.path.join(d, c.get("dir", "conv.dir"))
     os.makedirs(sub, exist_ok=True)
     src = os.path.join(sub, c["stem"] + src_ext)
     if c["src_by"] == "raw":
@@ -400,16 +471,23 @@ def _convert(ctx, case, d):
         kw["output_name"] = out
     label = c["direction"]
     if c["overwrite"] is False and c["preexisting"]:
-        raised = None
-        try:
-            f(src, **kw)
-        except Exception as e:
-            raised = type(e).__name__
-        now = open(out, "rb").read() if os.path.isfile(out) else None
-        good = raised is not None and now == sentinel
-        ctx.check("overwrite_refusal", good, None if good else {"function": label, "raised": raised, "output": os.path.basename(out),
-                                                                "output_bytes_unchanged": now == sentinel, "explicit_name": c["explicit"],
-                                                                "sentinel": c["sentinel"]})
+        for attempt in (1, 2):                     # a second refused call must leave the file byte-identical too
+            raised = None
+            try:
+                if c["positional"] and attempt == 2:
+                    f(src, kw.get("invert", False), False, kw.get("output_name"))
+                else:
+                    f(src, **kw)
+            except Exception as e:
+                raised = type(e).__name__
+            now = open(out, "rb").read() if os.path.isfile(out) else None
+            good = raised is not None and now == sentinel
+            ctx.check("overwrite_refusal", good, None if good else {"function": label, "raised": raised, "output": os.path.basename(out),
+                                                                    "output_bytes_unchanged": now == sentinel, "explicit_name": c["explicit"],
+                                                                    "sentinel": c["sentinel"], "attempt": attempt,
+                                                                    "output_len_now": None if now is None else len(now), "sentinel_len": len(sentinel)})
+            if not good:
+                break
         kw["overwrite"] = True                     # then the permitted overwrite must produce the conversion
         with open(out, "wb") as fh:                # (from the same starting point)
             fh.write(sentinel)
@@ -527,11 +605,77 @@ def _edit_reread(ctx, case, d, path, first, kw):
                 judge("default options, after conversion", c, {})
 
 
+def _edit_in_place(A, step):
+    """edit the caller-owned array in place; never overflows (ints: bitwise-not-like -A-1), always changes it."""
+    with np.errstate(all="ignore"):
+        if A.dtype.kind == "i":
+            if step % 2 == 0:
+                np.invert(A, out=A)
+            else:
+                A[...] = np.roll(A, 1, axis=int(np.argmax(A.shape)))
+                A.flat[0] = 11 if A.flat[0] != 11 else 12
+        else:
+            if step % 2 == 0:
+                A *= -1
+                A += 0.5
+            else:
+                A[...] = np.roll(A, 1, axis=int(np.argmax(A.shape)))
+                A.flat[0] = 11.25 if A.flat[0] != 11.25 else 12.5
+
+
+def _rewrite_history(ctx, case, d):
+    """write(A,p) -> read/convert -> edit A in place -> write(A,p) again -> read/convert ... every observation is judged
+    against what A held when it was last written (write_bytes judges each write against A at that moment as well)."""
+    cm = ctx.cmap
+    i = case["i"]
+    A = np.array(case["arr"], copy=True)
+    hd = os.path.join(d, "hist")
+    os.makedirs(hd, exist_ok=True)
+    exts = case["exts"] if case["cls"] == "write_mutate_rewrite" else [case["exts"][i % 3]]
+    wkw = {}
+    if not case["wT"]:
+        wkw["transpose"] = False
+    rkw = {} if case["rT"] else {"transpose": False}
+
+    def observe(stage, path, ext):
+        disk = orc.expected_on_disk(A, case["wT"], None)
+        ok, back = ctx.call("read(history)", cm.read, path, **rkw)
+        if ok:
+            exp = _expected_back(disk, case["rT"], None)
+            good = isinstance(back, np.ndarray) and orc.values_equal(back, exp)
+            ctx.check("rewrite_history", good, None if good else dict(orc.explain(np.asarray(back), exp), stage=stage, ext=ext, what="read"))
+        if ext in (".em", ".mrc") and case["wT"]:
+            f, label, oext = (cm.em2mrc, "em2mrc", ".mrc") if ext == ".em" else (cm.mrc2em, "mrc2em", ".em")
+            out = path[:-len(ext)] + oext                       # default name, overwritten at every step
+            ok, _ = ctx.call(label + "(history)", f, path)
+            if ok:
+                P = orc.parse(out)
+                good = "error" not in P and tuple(P["dims"]) == disk.shape and orc.values_equal(P["data"], disk)
+                ctx.check("rewrite_history", good, None if good else dict(orc.explain(P["data"], disk) if "error" not in P else {"parse": orc.header_summary(P)},
+                                                                        stage=stage, ext=ext, what=label + " of the rewritten source"))
+
+    for ext in exts:
+        path = os.path.join(hd, "h" + ext)
+        for step in range(3):
+            ok, _ = ctx.call("write(history)", cm.write, A, path, **wkw)
+            if not ok:
+                break
+            observe("after write #%d" % (step + 1), path, ext)
+            _edit_in_place(A, step + i)
+        # the last edit was not written: the file must still hold the previous values; write it elsewhere and compare both
+        other = os.path.join(hd, "h2" + ext)
+        ok, _ = ctx.call("write(history)", cm.write, A, other, **wkw)
+        if ok:
+            observe("other path after edit", other, ext)
+
+
 def _refusals(ctx, case, d):
     """documented refusals, driven for anchor coverage only (not part of the property: counted, never judged)."""
     cm = ctx.cmap
     a = case["arr"]
-    em, mrc = os.path.join(d, "rt.em"), os.path.join(d, "rt.mrc")
+    em, mrc = os.path.join(d, "rf.em"), os.path.join(d, "rf.mrc")
+    orc.raw_write(em, np.zeros((2, 3, 2), dtype=np.float32))
+    orc.raw_write(mrc, np.zeros((2, 3, 2), dtype=np.float32), ispg=1)
     calls = [lambda: cm.read(os.path.join(d, "x.txt")), lambda: cm.read(1234), lambda: cm.write(a, os.path.join(d, "x.txt")),
              lambda: cm.em2mrc(1234), lambda: cm.em2mrc(mrc), lambda: cm.em2mrc(em, output_name=os.path.join(d, "y.em")),
              lambda: cm.mrc2em(1234), lambda: cm.mrc2em(em), lambda: cm.mrc2em(mrc, output_name=os.path.join(d, "y.mrc")),
@@ -551,10 +695,101 @@ def run_case(ctx, case):
         _roundtrips(ctx, case, d)
         _raw_reads(ctx, case, d)
         _convert(ctx, case, d)
+        if case.get("rewrite"):
+            _rewrite_history(ctx, case, d)
         if case["refusals"]:
             _refusals(ctx, case, d)
     finally:
         shutil.rmtree(d, ignore_errors=True)
+
+
+def _pseudo_case(n, arr, **over):
+    c = {"i": 10 ** 7 + n, "cls": "grid", "arr": arr, "layout": "C", "wT": True, "rT": True, "wdt": None, "rdt": None,
+         "exts": [".mrc", ".rec", ".em"], "positional": False, "edit_reread": False, "invert_contrast": False, "rt_stem": "g", "rt_dir": None}
+    c.update(over)
+    return c
+
+
+def _small_shape(rng):
+    while True:
+        s = tuple(int(v) for v in rng.integers(1, 13, 3))
+        if len(set(s)) == 3:
+            return s
+
+
+def _option_grids(ctx, d):
+    """full products of the in-quantifier options (each pair of options therefore occurs together many times):
+    G1 source dtype x every data_type spelling (+None) x transpose x extension on write, read spellings cycling;
+    G2 raw file dtype x every value-preserving read data_type spelling x transpose x extension;
+    G3 converter direction x invert x default/explicit name x overwrite x pre-existing output x dtype, token names cycling;
+    G4 memory layout x transpose x dtype x extension."""
+    reps = 1 if ctx.tier == "quick" else 4
+    n = 0
+    counts = {"grid_write_data_type_cases": 0, "grid_read_data_type_cases": 0, "grid_conversion_cases": 0, "grid_layout_cases": 0}
+    read_sp = [sp for t in ("float64", "float32", "int16") for sp in READ_SPELLINGS[t]]
+    for rep_ in range(reps):
+        # G1
+        for di, dt in enumerate(DTYPES):
+            for si, (tname, sp) in enumerate([(None, None)] + orc.ALL_SPELLINGS):
+                for wT in (True, False):
+                    n += 1
+                    rng = ctx.rng(10 ** 7 + n, 21)
+                    shape = _small_shape(rng)
+                    arr = orc.values_for_cast(rng, shape, dt, tname or dt, hard=True)
+                    stored = orc.narrowed(arr if tname is None else arr.astype(tname))
+                    rdt = read_sp[(n + si) % len(read_sp)] if n % 3 else None
+                    if rdt is not None and orc.exact_cast(stored, rdt) is None:
+                        rdt = [np.float64, "d", float, "f8"][n % 4]
+                    g = os.path.join(d, "g1")
+                    os.makedirs(g, exist_ok=True)
+                    _roundtrips(ctx, _pseudo_case(n, arr, wT=wT, rT=bool((n // 2) % 2), wdt=sp, rdt=rdt, positional=bool(n % 5 == 0)), g)
+                    counts["grid_write_data_type_cases"] += 1
+        # G2
+        for dt in (np.float32, np.int16, np.int8):
+            for sp in read_sp:
+                for rT in (True, False):
+                    n += 1
+                    rng = ctx.rng(10 ** 7 + n, 22)
+                    arr = orc.values_for_cast(rng, _small_shape(rng), dt, np.dtype(sp) if np.dtype(sp).kind == "f" else np.dtype(sp), hard=True)
+                    if orc.exact_cast(arr, sp) is None:
+                        continue
+                    g = os.path.join(d, "g2")
+                    os.makedirs(g, exist_ok=True)
+                    c = _pseudo_case(n, arr, rT=rT, rdt=sp, raw=[{"ext": e, "ispg": [None, 1, 0][n % 3], "nsymbt": [0, 0, 80][n % 3]} for e in (".em", ".mrc", ".rec")])
+                    _raw_reads(ctx, c, g)
+                    counts["grid_read_data_type_cases"] += 1
+        # G3
+        stems = TOKEN_STEMS + STEMS
+        for direction in ("em2mrc", "mrc2em"):
+            for invert in (False, True):
+                for explicit in (False, True):
+                    for overwrite in (None, True, False):
+                        for pre in (False, True):
+                            for dt in DTYPES:
+                                n += 1
+                                rng = ctx.rng(10 ** 7 + n, 23)
+                                arr = orc.make_values(rng, _small_shape(rng), dt, "normal")
+                                conv = {"direction": direction, "invert": invert, "explicit": explicit, "stem": stems[n % len(stems)],
+                                        "dir": TOKEN_DIRS[(n // 3) % len(TOKEN_DIRS)], "src_by": ["raw", "cryomap.write"][n % 2],
+                                        "overwrite": overwrite, "preexisting": pre, "sentinel": ["junk", "valid"][(n // 2) % 2],
+                                        "positional": n % 7 == 0}
+                                g = os.path.join(d, "g3_%d" % n)
+                                os.makedirs(g, exist_ok=True)
+                                _convert(ctx, _pseudo_case(n, arr, conv=conv), g)
+                                shutil.rmtree(g, ignore_errors=True)
+                                counts["grid_conversion_cases"] += 1
+        # G4
+        for layout in ("C", "F", "strided", "reversed", "transposed_view", "readonly"):
+            for wT in (True, False):
+                for dt in DTYPES:
+                    n += 1
+                    rng = ctx.rng(10 ** 7 + n, 24)
+                    arr = orc.make_values(rng, _small_shape(rng), dt, "ramp" if n % 2 else "normal")
+                    g = os.path.join(d, "g4")
+                    os.makedirs(g, exist_ok=True)
+                    _roundtrips(ctx, _pseudo_case(n, arr, layout=layout, wT=wT, rT=bool(n % 2)), g)
+                    counts["grid_layout_cases"] += 1
+    return counts
 
 
 def extra(ctx):
@@ -584,6 +819,8 @@ def extra(ctx):
                 if ok:
                     good = isinstance(back, np.ndarray) and orc.values_equal(back, X)
                     ctx.check("raw_read", good, None if good else dict(orc.explain(np.asarray(back), X), ext=ext, exhaustive=True))
+    grids = _option_grids(ctx, d)
+    ctx.extra.update(grids)
     ctx.extra["exhaustive_small_shapes"] = "all %d shapes in {1..%d}^3 x 4 dtypes x 3 extensions" % (n ** 3, n)
     ctx.extra["exhaustive_roundtrips"] = count
     shutil.rmtree(d, ignore_errors=True)
